@@ -651,27 +651,59 @@ static RCP<const Symbol> eval_var(const std::string &r)
     return rcp_static_cast<const Symbol>(x);
 }
 
-static std::string run_D0(const std::vector<std::string> &f)
+// like verif::run_forked, but the child writes its output piecewise (what was written before a crash
+// survives): f gets a writer
+static std::string run_forked_stream(const std::function<void(const std::function<void(const std::string &)> &)> &f,
+                                     unsigned timeout_s)
 {
-    try {
-        RCP<const Symbol> x = eval_var(f.at(1));
-        RCP<const Basic> e = eval_expr(f.at(2), x);
-        return verif::dump(*x) + "\t" + verif::dump(*e);
-    } catch (...) {
-        return "BADCASE";
+    int fd[2];
+    if (pipe(fd) != 0)
+        return "PIPEFAIL";
+    fflush(stdout);
+    pid_t pid = fork();
+    if (pid == 0) {
+        close(fd[0]);
+        alarm(timeout_s);
+        struct rlimit rl;
+        rl.rlim_cur = rl.rlim_max = 0;
+        setrlimit(RLIMIT_CORE, &rl);
+        auto w = [&](const std::string &s) {
+            size_t off = 0;
+            while (off < s.size()) {
+                ssize_t k = write(fd[1], s.data() + off, s.size() - off);
+                if (k <= 0)
+                    break;
+                off += (size_t)k;
+            }
+        };
+        try {
+            f(w);
+        } catch (...) {
+            w("UNCAUGHT");
+        }
+        close(fd[1]);
+        _exit(0);
     }
+    close(fd[1]);
+    std::string out;
+    char buf[65536];
+    ssize_t r;
+    while ((r = read(fd[0], buf, sizeof buf)) > 0)
+        out.append(buf, (size_t)r);
+    close(fd[0]);
+    int status = 0;
+    waitpid(pid, &status, 0);
+    if (WIFSIGNALED(status)) {
+        int sig = WTERMSIG(status);
+        if (sig == SIGALRM)
+            return out + "HANG";
+        return out + "CRASH:" + std::to_string(sig);
+    }
+    return out;
 }
 
-static std::string run_D(const std::vector<std::string> &f)
+static std::string run_D(const RCP<const Symbol> &x, const RCP<const Basic> &e)
 {
-    RCP<const Symbol> x;
-    RCP<const Basic> e;
-    try {
-        x = eval_var(f.at(1));
-        e = eval_expr(f.at(2), x);
-    } catch (...) {
-        return "BADCASE";
-    }
     std::ostringstream o;
     RCP<const Basic> d, d2;
     std::string ex1, ex2;
@@ -777,6 +809,172 @@ static std::string run_E(const std::vector<std::string> &f)
     return "MISMATCH impl=" + verif::dump_sorted(*d) + " model=" + verif::dump_sorted(*m);
 }
 
+// ---------------------------------------------------------------- polynomial classes
+// P <kind> <vars> <wrt> <terms>
+//   kind uint | urat | uexpr : vars = one name, terms = k:c,k:c  (urat c = n/d; uexpr k may be negative, c is a recipe)
+//   kind mint               : vars = v1,v2,.. ; terms = k1.k2..:c;...   (exponent vectors in the order of <vars>)
+// Output: the result in the same notation (terms sorted; `-` for the zero polynomial), preceded by the
+// class name and the variables; #ORACLE when expand(diff(p.as_symbolic(), wrt)) differs from the
+// symbolic form of the result.
+static std::vector<std::string> split_on(const std::string &s, char c)
+{
+    std::vector<std::string> v;
+    if (s.empty() || s == "-")
+        return v;
+    size_t st = 0;
+    while (true) {
+        size_t p = s.find(c, st);
+        if (p == std::string::npos) {
+            v.push_back(s.substr(st));
+            break;
+        }
+        v.push_back(s.substr(st, p - st));
+        st = p + 1;
+    }
+    return v;
+}
+
+static std::string join(const std::vector<std::string> &v, const char *sep)
+{
+    if (v.empty())
+        return "-";
+    std::string s;
+    for (size_t i = 0; i < v.size(); i++)
+        s += (i ? sep : "") + v[i];
+    return s;
+}
+
+static std::string qstr(const rational_class &q)
+{
+    std::ostringstream o;
+    o << get_num(q);
+    if (get_den(q) != 1)
+        o << "/" << get_den(q);
+    return o.str();
+}
+
+static std::string run_P(const std::vector<std::string> &f)
+{
+    const std::string &kind = f.at(1);
+    RCP<const Symbol> wrt = symbol(f.at(3));
+    RCP<const Basic> p, r;
+    std::ostringstream o;
+    try {
+        if (kind == "uint" || kind == "urat" || kind == "uexpr") {
+            RCP<const Basic> var = symbol(f.at(2));
+            if (kind == "uint") {
+                map_uint_mpz d;
+                for (auto &t : split_on(f.at(4), ',')) {
+                    size_t c = t.find(':');
+                    d[(unsigned)std::stoul(t.substr(0, c))] = integer_class(t.substr(c + 1));
+                }
+                p = UIntPoly::from_dict(var, std::move(d));
+                r = p->diff(wrt);
+                const UIntPoly &q = down_cast<const UIntPoly &>(*r);
+                std::vector<std::string> ts;
+                for (auto it = q.begin(); it != q.end(); ++it)
+                    ts.push_back(std::to_string(it->first) + ":" + verif::zstr(it->second));
+                o << "UIntPoly " << *q.get_var() << " " << join(ts, ",");
+            } else if (kind == "urat") {
+                map_uint_mpq d;
+                for (auto &t : split_on(f.at(4), ',')) {
+                    size_t c = t.find(':');
+                    std::string cs = t.substr(c + 1);
+                    size_t sl = cs.find('/');
+                    rational_class q(integer_class(cs.substr(0, sl)), sl == std::string::npos ? integer_class(1) : integer_class(cs.substr(sl + 1)));
+                    canonicalize(q);
+                    d[(unsigned)std::stoul(t.substr(0, c))] = q;
+                }
+                p = URatPoly::from_dict(var, std::move(d));
+                r = p->diff(wrt);
+                const URatPoly &q = down_cast<const URatPoly &>(*r);
+                std::vector<std::string> ts;
+                for (auto it = q.begin(); it != q.end(); ++it)
+                    ts.push_back(std::to_string(it->first) + ":" + qstr(it->second));
+                o << "URatPoly " << *q.get_var() << " " << join(ts, ",");
+            } else {
+                map_int_Expr d;
+                for (auto &t : split_on(f.at(4), ',')) {
+                    size_t c = t.find(':');
+                    d[std::stoi(t.substr(0, c))] = Expression(verif::eval_recipe(t.substr(c + 1)));
+                }
+                p = UExprPoly::from_dict(var, std::move(d));
+                r = p->diff(wrt);
+                const UExprPoly &q = down_cast<const UExprPoly &>(*r);
+                std::vector<std::string> ts;
+                for (auto it = q.begin(); it != q.end(); ++it)
+                    ts.push_back(std::to_string(it->first) + ":" + verif::dump_sorted(*it->second.get_basic()));
+                o << "UExprPoly " << *q.get_var() << " " << join(ts, ",");
+            }
+        } else if (kind == "mint") {
+            std::vector<std::string> names = split_on(f.at(2), ',');
+            vec_basic vars;
+            for (auto &n : names)
+                vars.push_back(symbol(n));
+            umap_uvec_mpz d;
+            for (auto &t : split_on(f.at(4), ';')) {
+                size_t c = t.find(':');
+                vec_uint v;
+                for (auto &k : split_on(t.substr(0, c), '.'))
+                    v.push_back((unsigned)std::stoul(k));
+                d[v] = integer_class(t.substr(c + 1));
+            }
+            p = MIntPoly::from_dict(vars, std::move(d));
+            r = p->diff(wrt);
+            const MIntPoly &q = down_cast<const MIntPoly &>(*r);
+            // position of each variable of the result (sorted set) in the case's variable list
+            std::vector<size_t> pos;
+            std::vector<std::string> rn;
+            for (const auto &v : q.get_vars()) {
+                std::string n = down_cast<const Symbol &>(*v).get_name();
+                rn.push_back(n);
+                pos.push_back(std::find(names.begin(), names.end(), n) - names.begin());
+            }
+            std::vector<std::string> ts;
+            for (const auto &b : q.get_poly().dict_) {
+                std::vector<unsigned> v(names.size(), 0);
+                for (size_t i = 0; i < b.first.size(); i++)
+                    v.at(pos[i]) = b.first[i];
+                std::string m;
+                for (size_t i = 0; i < v.size(); i++)
+                    m += (i ? "." : "") + std::to_string(v[i]);
+                ts.push_back(m + ":" + verif::zstr(b.second));
+            }
+            std::sort(ts.begin(), ts.end());
+            std::sort(rn.begin(), rn.end());
+            o << "MIntPoly " << join(rn, ",") << " " << join(ts, ";");
+        } else {
+            return "BADCASE";
+        }
+    } catch (...) {
+        return verif::exn_name();
+    }
+    // oracle: the symbolic route
+    try {
+        RCP<const Basic> ps, rs;
+        if (kind == "mint") {
+            ps = down_cast<const MIntPoly &>(*p).as_symbolic();
+            rs = down_cast<const MIntPoly &>(*r).as_symbolic();
+        } else if (kind == "uint") {
+            ps = down_cast<const UIntPoly &>(*p).as_symbolic();
+            rs = down_cast<const UIntPoly &>(*r).as_symbolic();
+        } else if (kind == "urat") {
+            ps = down_cast<const URatPoly &>(*p).as_symbolic();
+            rs = down_cast<const URatPoly &>(*r).as_symbolic();
+        } else {
+            ps = down_cast<const UExprPoly &>(*p).as_symbolic();
+            rs = down_cast<const UExprPoly &>(*r).as_symbolic();
+        }
+        RCP<const Basic> want = expand(ps->diff(wrt));
+        if (!eq(*want, *expand(rs)))
+            o << "\t#ORACLE:poly: diff of the polynomial object gives " << *rs << " but diff of its symbolic form " << *ps
+              << " gives " << *want;
+    } catch (...) {
+        o << "\t#INFO:poly-oracle-skipped";
+    }
+    return o.str();
+}
+
 int main()
 {
     std::string line;
@@ -785,13 +983,25 @@ int main()
         std::string r;
         if (f.size() >= 3 && f[0] == "D")
         {
-            // the dumps of the inputs first, so that they survive a crash of diff
-            r = verif::run_forked([&]() { return run_D0(f); }, 60);
-            if (r != "BADCASE" && r.find("CRASH") == std::string::npos && r.find("HANG") == std::string::npos)
-                r += "\t" + verif::run_forked([&]() { return run_D(f); }, 60);
+            // the dumps of the inputs are written first, so that they survive a crash of diff
+            r = run_forked_stream([&](const std::function<void(const std::string &)> &w) {
+                RCP<const Symbol> x;
+                RCP<const Basic> e;
+                try {
+                    x = eval_var(f.at(1));
+                    e = eval_expr(f.at(2), x);
+                } catch (...) {
+                    w("BADCASE");
+                    return;
+                }
+                w(verif::dump(*x) + "\t" + verif::dump(*e) + "\t");
+                w(run_D(x, e));
+            }, 90);
         }
         else if (f.size() >= 4 && f[0] == "E")
             r = verif::run_forked([&]() { return run_E(f); }, 60);
+        else if (f.size() >= 5 && f[0] == "P")
+            r = verif::run_forked([&]() { return run_P(f); }, 60);
         else
             r = "BADLINE";
         std::cout << r << "\n";
